@@ -632,7 +632,10 @@ func ExecutePlan(plan *Plan, p ExecuteParams) (result *Result) {
 
 	extErrs, executionFinishFn := handleExtensionsExecutionDidStart(&p)
 	if len(extErrs) != 0 {
-		return &Result{Errors: extErrs}
+		// finish the execution phases other extensions did start
+		result = &Result{Errors: extErrs}
+		result.Errors = append(result.Errors, executionFinishFn(result)...)
+		return result
 	}
 	defer func() {
 		extErrs := executionFinishFn(result)
